@@ -83,6 +83,11 @@ func Param(name string, def int) int {
 	return def
 }
 
+// Or / And / Not combine conditions without short-circuit branching (one solver term).
+func Or(a, b bool) bool  { return a || b }
+func And(a, b bool) bool { return a && b }
+func Not(a bool) bool    { return !a }
+
 // Concrete makes the engine fork over the feasible values of x.
 func Concrete(x int) int { return x }
 
